@@ -94,7 +94,7 @@ def run(specs, shape, rng_seed, boxes=None, kps=None, channels=None, extra_targe
         data['bboxes'] = [tuple(b) for b in boxes]
     if kps is not None:
         data['keypoints'] = [tuple(k) for k in kps]
-    random.seed(rng_seed)
+    R.seed(rng_seed)
     np.random.seed(rng_seed % (2 ** 31))
     return pipe(**data)
 
